@@ -51,6 +51,7 @@ func roundsWL(x *mon.Ctx) {
 	slow := strings.Contains(x.Variant, "purego")
 	if slow {
 		rounds = x.Scale(7, 30)
+		sharedPoints = 2
 	}
 	for i := 0; i < x.Shards*rounds; i++ {
 		kind := "fresh-objects"
@@ -71,6 +72,20 @@ func roundsWL(x *mon.Ctx) {
 		// records only one of their GOMAXPROCS values in a replay file).
 		c.R = mon.NewRand(c.R.Uint64(), "c20 round", x.Config, x.Variant, x.Shards)
 		oneRound(c, kind, slow, func() *material { return materialFor(x, i) })
+		c.End()
+	}
+	// first-use bursts (burst.go): many cheap trials of one object kind per case
+	bursts := x.Scale(3, 12)
+	if slow {
+		bursts = x.Scale(2, 8)
+	}
+	for j := 0; j < x.Shards*bursts; j++ {
+		c := x.Begin("first-use burst #%d", j)
+		if c == nil {
+			continue
+		}
+		c.R = mon.NewRand(c.R.Uint64(), "c20 burst", x.Config, x.Variant, x.Shards)
+		oneBurst(c, slow)
 		c.End()
 	}
 }
@@ -182,14 +197,14 @@ func planRound(c *mon.Case, ng, perG int) (lists [][]call, kind string) {
 		// family round: the first call of EVERY goroutine (and one later call) is an operation on one parent object:
 		// derivations from it, its accessors, constructors of objects from it and its first uses are released together
 		// (family "own": the first call of every goroutine is the SAME operation on objects of its own, so that first uses
-		// of different objects of one kind are released together)
+		// of different objects of one kind are released together; family "points": the SAME walk over the shared points)
 		fam := families[c.R.Intn(len(families))]
 		kind = "family/" + fam
 		idx := opsOfFamily(fam)
 		same := idx[c.R.Intn(len(idx))]
 		for g := range lists {
 			lists[g][0].op = idx[c.R.Intn(len(idx))]
-			if fam == "own" {
+			if fam == "own" || fam == "points" {
 				lists[g][0].op = same
 			}
 			lists[g][1+c.R.Intn(len(lists[g])-1)].op = idx[c.R.Intn(len(idx))]
@@ -302,6 +317,19 @@ func oneRound(c *mon.Case, kind string, slow bool, getMaterial func() *material)
 		firstOps[ops[lists[g][0].op].name]++
 	}
 	c.Event("rounds/"+rkind, 1)
+	if allDone {
+		// the value of every shared object after the concurrent phase = its value after the sequential replay
+		var a, b [][2]string
+		if p := mon.Try(func() { a, b = shared.state(), seq.state() }); p != nil {
+			c.Fail("panic", "serialising the shared objects after the round: %v\n%s", p.Value, p.Stack)
+		}
+		for i := range a {
+			c.Event("object_states_compared", 1)
+			if i < len(b) && a[i] != b[i] {
+				c.Fail("mismatch", "%s: value after the concurrent phase %s differs from the value after the sequential replay %s", a[i][0], a[i][1], b[i][1])
+			}
+		}
+	}
 	if !allDone {
 		c.Class("round with goroutines that did not finish/%s", rkind)
 		return
